@@ -58,6 +58,7 @@ type waitState struct {
 	ctx      context.Context
 	cancelAt time.Time
 	cancelSt int64
+	deadline time.Time // context deadline, if it has one
 }
 
 type world struct {
@@ -592,6 +593,23 @@ func (w *world) doWait(ctx context.Context, ts *taskState, op sim.Op, i int, seq
 			}
 			cancel()
 		}, nil)
+	case op.E >= 1000 && (op.E/1000)%2 == 1:
+		// a context with a deadline (the implementation can see it coming)
+		// The context reports a deadline 1ms after the instant at which it is really
+		// cancelled (by a canceller task): go-redis arms a connection deadline from
+		// ctx.Deadline(), and two timers at exactly the same instant would race.
+		d := time.Duration(op.E - 1000)
+		ws.deadline = time.Now().Add(d)
+		wctx = lateDeadlineCtx{wctx, ws.deadline.Add(time.Millisecond)}
+		ws.ctx = wctx
+		e.Spawn(fmt.Sprintf("%s.c%d", ts.name, i), func() {
+			zsimrt.Sleep("canceller:sleep", d)
+			if ws.cancelAt.IsZero() {
+				ws.cancelAt = time.Now()
+				ws.cancelSt = e.Stamp()
+			}
+			cancel()
+		}, nil)
 	case op.E >= 1000:
 		d := time.Duration(op.E - 1000)
 		e.Spawn(fmt.Sprintf("%s.c%d", ts.name, i), func() {
@@ -610,6 +628,14 @@ func (w *world) doWait(ctx context.Context, ts *taskState, op sim.Op, i int, seq
 	ts.waiter = ws
 	e.Probe("wait_started")
 	err := ts.cl.WaitForVersionChange(wctx, key, ver)
+	ctxDoneAtReturn := wctx.Err() != nil
+	if ctxDoneAtReturn && ws.cancelAt.IsZero() {
+		ws.cancelAt = time.Now()
+		if !ws.deadline.IsZero() {
+			ws.cancelAt = ws.deadline
+		}
+		ws.cancelSt = e.Stamp()
+	}
 	ws.active = false
 	ts.waiter = nil
 	ret := e.Stamp()
@@ -617,8 +643,22 @@ func (w *world) doWait(ctx context.Context, ts *taskState, op sim.Op, i int, seq
 	o := outcome{Err: classify(err)}
 	e.Logf("%s wait %s ver=%s -> %s", ts.name, key, w.canonVer(ver), o.Err)
 	e.Probe("wait_returned_" + strings.SplitN(o.Err, ":", 2)[0])
+	if strings.HasPrefix(o.Err, "other:") && ctxDoneAtReturn {
+		// the context is done and the call failed: whatever the transport made of the
+		// cancellation (e.g. an i/o timeout from a connection deadline) is the cancel outcome
+		e.Probe("wait_cancel_reported_as_transport_error")
+		o.Err = "ctx"
+	}
 	if strings.HasPrefix(o.Err, "other:") {
 		e.Violate(w.prop(), "undocumented_error", "%s WaitForVersionChange(%q) failed with an error outside the contract: %s", ts.name, key, o.Err[6:])
+		return
+	}
+	if o.Err == "ctx" && !ctxDoneAtReturn && w.prop() == "C07" {
+		left := time.Duration(0)
+		if !ws.deadline.IsZero() {
+			left = time.Until(ws.deadline)
+		}
+		e.Violate("C07", "invented_cancel", "WaitForVersionChange(%q) of %s returned the context's error although its context was not done at that moment (deadline still %v away): a change before the deadline would have been missed", key, ts.name, left)
 		return
 	}
 	if seq {
@@ -693,6 +733,14 @@ func (w *world) doWait(ctx context.Context, ts *taskState, op sim.Op, i int, seq
 		}
 	}
 }
+
+// lateDeadlineCtx is a cancellable context that also reports a deadline.
+type lateDeadlineCtx struct {
+	context.Context
+	dl time.Time
+}
+
+func (c lateDeadlineCtx) Deadline() (time.Time, bool) { return c.dl, true }
 
 // lifetime of state k: from the invocation of the mutation that produced it
 // until the return of the next mutation.
